@@ -400,7 +400,7 @@ PROPS = {
              "non-trivial = trace with a frame or a cause",
              "all clauses proved; wf_trace is the boolean domain (necessity of each condition shown by counterexamples)"),
     "C02": P(["C02_bytes_roundtrip", "C02_class", "C02_method", "C02_frame_by_line", "C02_frame_by_params",
-              "C02_signature", "C02_index_irrelevant", "C02_text_trace", "C02_typed_trace", "C02_domain_of_parsed_bytes"],
+              "C02_signature", "C02_index_irrelevant", "C02_text_trace", "C02_typed_trace", "C02_domain_of_parsed_bytes", "C02_from_bytes", "C02_sizes_from_length"],
              "Theorems (refinement chain): the bytes written from a representable record list parse back to exactly the "
              "written structure; the reader on that structure answers class, method, line and parameter queries exactly "
              "as the specification (sorted sections + exact binary search + string-table injectivity), and so does the "
